@@ -1059,6 +1059,23 @@ Lemma lns_nonvacuous :
     map lns_toks st = [[TN 1; TN 1; TN 4242; TN 2; TN 0]; [TN 1; TN 1; TN 4242; TN 3; TN 0]].
 Proof. eexists. split; vm_compute; reflexivity. Qed.
 
+(* ---------------- PPPoE AC-Cookie and L2TP challenge response ---------------- *)
+Lemma cookie_validate_total cookie d fresh : safe (cookie_validate cookie d fresh).
+Proof. unfold cookie_validate. safe_tac. Qed.
+Lemma verify_challenge_total observed d : safe (verify_challenge observed d).
+Proof. unfold verify_challenge. safe_tac. Qed.
+(* a cookie is accepted only if it is exactly 36 bytes, fresh, and its first 32 bytes are the HMAC *)
+Lemma cookie_validate_sound cookie d fresh : cookie_validate cookie d fresh = Ok true ->
+  lenN cookie = 36 /\ fresh = true /\ sl 0 32 cookie = Ok d.
+Proof.
+  unfold cookie_validate. destruct (negb (lenN cookie =? 36)) eqn:E; [discriminate|]. intros H.
+  destruct (t <- slf 32 cookie;; u32at 0 t); cbn [rbind] in H; try discriminate H.
+  destruct fresh; cbn [negb] in H; [|discriminate H].
+  destruct (slf 32 cookie); cbn [rbind] in H; try discriminate H.
+  destruct (sl 0 32 cookie) as [sig| | |]; cbn [rbind] in H; try discriminate H.
+  destruct (list_eq_dec N.eq_dec sig d) as [->|]; [|discriminate H]. repeat split. lia.
+Qed.
+
 (* ---------------- the driver-level statement ---------------- *)
 Lemma run_total entry na ba : safe (run Repaired entry na ba).
 Proof.
@@ -1073,7 +1090,7 @@ Proof.
                  |apply strip_option82_total|apply set_option4_total|apply get_option4_total
                  |apply parse_sub82_total|apply dhcp_parse_total|apply parse_message4_total
                  |apply attr80_window_total|apply is_authentic_reply_total|apply validate_request_auth_total
-                 |apply validate_message_auth_total|apply l2tp_dispatch_ppp_total|apply l2tp_dispatch_total|apply lns_run_total]
+                 |apply validate_message_auth_total|apply l2tp_dispatch_ppp_total|apply l2tp_dispatch_total|apply lns_run_total|apply cookie_validate_total|apply verify_challenge_total]
             | cbv zeta; safe_tac; first [apply handle_frame_total|apply has_service_type_total|apply event_timestamp_total|apply ipoe_msg_type_total]]|]).
   reflexivity.
 Qed.
